@@ -33,7 +33,7 @@ PROPS_FILES = ["Gama/Props/C04Full.lean"]
 LEAN_TARGETS = ["Gama.Props.C04Full"]
 DRIVERS = ["drv_fullstate", "drv_netstate"]
 SRC = ["lib/gnu_gama/adj/adj.cpp", "lib/gnu_gama/adj/icgs.cpp", "lib/gnu_gama/adj/adj_input_data.cpp"]
-CONFIG_OPS = ("min_x", "min_x_all", "reset", "set_alg")
+CONFIG_OPS = ("min_x", "min_x_all", "reset", "set_alg")      # "reset" also matches reset_new
 RTOL, ATOL = 1e-7, 1e-8
 SILENT = ("problem", "row", "cov", "rhs", "minx")       # definition lines: no output
 
@@ -56,15 +56,82 @@ def _problem(rng, unit):
     return p
 
 
+def _finish(q):
+    q["kernel"] = g.kernel(g.dense(q), q["n"])
+    q["defect"] = len(q["kernel"])
+    q["unit_cov"] = all(b["width"] == 0 and all(x == 1 for x in b["v"]) for b in q["cov"])
+    return q
+
+
+def banded_cov(rng, m):
+    """covariance with at least one block of band width > 0 (homogenisation fill-in in Adj's A_dot)"""
+    blocks, left = [], m
+    first = True
+    while left > 0:
+        d = min(left, rng.choice([2, 3, 4, left]) if first and left >= 2 else rng.choice([1, 2, 3, left]))
+        if d >= 2 and (first or rng.random() < 0.5):
+            blocks.append(g._spd_block(rng, d, rng.randint(1, d - 1)))
+        else:
+            blocks.append({"dim": d, "width": 0, "v": [F(rng.choice([1, 2, 4, 9]), rng.choice([1, 4])) for _ in range(d)]})
+        first = False
+        left -= d
+    return blocks
+
+
+def same_shape_variant(rng, p, unit):
+    """ANOTHER problem with the same m x n: rows shuffled and unknowns renumbered (every row position gets another
+    column pattern), some coefficients rescaled, new covariance and right-hand side"""
+    n, m = p["n"], p["m"]
+    rows = [list(r) for r in p["rows"]]
+    rng.shuffle(rows)
+    perm = list(range(1, n + 1))
+    rng.shuffle(perm)
+    rows = [[(perm[c - 1], v * rng.choice([1, 1, 2, -1])) for c, v in r] for r in rows]
+    q = {"m": m, "n": n, "rows": rows, "family": p["family"],
+         "cov": [{"dim": m, "width": 0, "v": [F(1)] * m}] if unit else (banded_cov(rng, m) if rng.random() < 0.7 else g.gen_cov(rng, m, True)),
+         "rhs": [F(rng.randint(-8, 8), rng.choice([1, 2, 4])) for _ in range(m)]}
+    return _finish(q)
+
+
+def gen_problems(rng, unit, k=None):
+    """2-3 problems for one long-lived object: equal-size variants and problems of another size, regular and
+    singular; not unit: most have a correlated block of band > 0"""
+    k = k or rng.choice([2, 2, 3])
+    p = _problem(rng, unit)
+    if not unit and p["m"] >= 2 and rng.random() < 0.7:
+        p["cov"] = banded_cov(rng, p["m"])
+        _finish(p)
+    ps = [p]
+    while len(ps) < k:
+        if rng.random() < 0.6:
+            ps.append(same_shape_variant(rng, rng.choice(ps), unit))
+        else:
+            q = _problem(rng, unit)
+            if not unit and q["m"] >= 2 and rng.random() < 0.7:
+                q["cov"] = banded_cov(rng, q["m"])
+                _finish(q)
+            ps.append(q)
+    return ps
+
+
+def _valid_for(p, S):
+    """the configured list (None/'all' = all unknowns) can be used on problem p and resolves its defect"""
+    if S is None or S == "all":
+        return True
+    return all(1 <= i <= p["n"] for i in S) and (p["defect"] == 0 or g.resolves(p, S))
+
+
 def _subsets(rng, p, k=4):
     return [S for S, ok in g.gen_subsets(rng, p, k) if ok and len(S) >= max(1, p["defect"])]
 
 
-def gen_full_history(rng, maxlen, want_singular=None, throwing=False):
-    """one long-lived chol/gso/svd object: queries interleaved with min_x changes and resets"""
+def gen_full_history(rng, maxlen, want_singular=None, throwing=False, multi=False):
+    """one long-lived chol/gso/svd object: queries interleaved with min_x changes and resets
+    (multi: also `reset_new k` = reset(A', b') of another problem of the same or another size)"""
     while True:
-        p = _problem(rng, unit=True)
-        if want_singular is None or bool(p["defect"]) == want_singular:
+        ps = gen_problems(rng, unit=True) if multi else [_problem(rng, unit=True)]
+        p = ps[0]
+        if want_singular is None or any(bool(q["defect"]) == want_singular for q in ps):
             break
     alg = rng.choice(["chol", "gso", "svd"])
     subs = _subsets(rng, p)
@@ -73,14 +140,39 @@ def gen_full_history(rng, maxlen, want_singular=None, throwing=False):
         # lists shorter than the defect never resolve it (any algorithm)
         bad = [sorted(rng.sample(range(1, p["n"] + 1), k)) for k in range(0, p["defect"]) for _ in range(2)]
     init = rng.choice([None, "all"] + subs)
-    ops = g.problem_lines(p, init) + [f"new {alg} solver", f"info {alg}", "state"]
+    ops = [l for q_ in ps[1:] for l in g.problem_lines(q_, None)] + g.problem_lines(p, init)
+    order = ps[1:] + [p]                               # identities in definition order; the first one is used by `new`
+    ops += [f"new {alg} solver", f"info {alg}", "state"]
+    p["_all"] = order
     n, m = p["n"], p["m"]
     keys = [rng.randint(1, n) for _ in range(rng.randint(1, 4))]
     okeys = [rng.randint(1, m) for _ in range(rng.randint(1, 3))]
     qs = []
     last = None
+    cur, cfg = p, init
     for _ in range(rng.randint(2, maxlen)):
         r = rng.random()
+        if multi and r < 0.12:
+            k = rng.randrange(len(order))
+            cur = order[k]
+            qs.append(f"reset_new {k + 1}")
+            if not _valid_for(cur, cfg):               # the caller re-configures the regularisation for the new system
+                cs = _subsets(rng, cur)
+                if cs and rng.random() < 0.7:
+                    cfg = rng.choice(cs)
+                    qs.append("min_x %d %s" % (len(cfg), " ".join(map(str, cfg))))
+                else:
+                    cfg = "all"
+                    qs.append("min_x_all")
+            n, m = cur["n"], cur["m"]
+            keys = [rng.randint(1, n) for _ in range(rng.randint(1, 4))]
+            okeys = [rng.randint(1, m) for _ in range(rng.randint(1, 3))]
+            subs = _subsets(rng, cur)
+            bad = []
+            last = None
+            continue
+        if r < 0.88 and r >= 0.75 and not subs:
+            r = 0.9
         if last is not None and r < 0.15 and not last.startswith(CONFIG_OPS):
             q = last                                   # repeated query
         elif r < 0.25:
@@ -102,8 +194,10 @@ def gen_full_history(rng, maxlen, want_singular=None, throwing=False):
         elif r < 0.88:
             S = rng.choice(bad) if (bad and rng.random() < 0.5) else rng.choice(subs)
             q = "min_x %d %s" % (len(S), " ".join(map(str, S)))
+            cfg = S
         elif r < 0.94:
             q = "min_x_all"
+            cfg = "all"
         else:
             q = "reset"
         qs.append(q)
@@ -111,14 +205,19 @@ def gen_full_history(rng, maxlen, want_singular=None, throwing=False):
     return p, alg, ops, qs
 
 
-def gen_adj_history(rng, maxlen):
-    """one long-lived Adj: queries interleaved with set_algorithm switches (and back) and set(same data)"""
-    p = _problem(rng, unit=False)
+def gen_adj_history(rng, maxlen, multi=False):
+    """one long-lived Adj: queries interleaved with set_algorithm switches (and back) and set(same data)
+    (multi: also `reset_new k` = set(data of another problem): same or other shape, correlated blocks of band > 0)"""
+    ps = gen_problems(rng, unit=False) if multi else [_problem(rng, unit=False)]
+    p = ps[0]
     algs = ["env", "chol", "gso", "svd"]
-    alg = rng.choice(algs)
-    subs = _subsets(rng, p)
-    init = rng.choice([None, None] + subs)
-    ops = g.problem_lines(p, init) + [f"new {alg} adj"] + [f"info {a}" for a in algs] + ["envinfo", "state"]
+    alg = rng.choice(algs) if not multi else rng.choice(["chol", "gso", "svd", "svd", "gso", "env"])
+    order = ps[1:] + [p]
+    ops = []
+    for q_ in order:
+        ops += g.problem_lines(q_, rng.choice([None, None] + _subsets(rng, q_)))
+    ops += [f"new {alg} adj"] + [f"info {a}" for a in algs] + ["envinfo", "state"]
+    p["_all"] = order
     n, m = p["n"], p["m"]
     keys = [rng.randint(1, n) for _ in range(rng.randint(1, 4))]
     okeys = [rng.randint(1, m) for _ in range(rng.randint(1, 3))]
@@ -126,6 +225,18 @@ def gen_adj_history(rng, maxlen):
     cur, prev = alg, alg
     for _ in range(rng.randint(2, maxlen)):
         r = rng.random()
+        if multi and r < 0.14:
+            k = rng.randrange(len(order))
+            qs.append(f"reset_new {k + 1}")
+            n, m = order[k]["n"], order[k]["m"]
+            keys = [rng.randint(1, n) for _ in range(rng.randint(1, 4))]
+            okeys = [rng.randint(1, m) for _ in range(rng.randint(1, 3))]
+            continue
+        if multi and r < 0.30:
+            # off-diagonal cofactors of unknowns / observations far apart (outside a narrow envelope)
+            q = rng.choice(["qxx 1 %d" % n, "qbb 1 %d" % m, "qxx %d 1" % n, "qbb %d %d" % (m, rng.randint(1, m))])
+            qs.append(q)
+            continue
         if r < 0.14:
             q = "x"
         elif r < 0.22:
@@ -148,14 +259,21 @@ def gen_adj_history(rng, maxlen):
     return p, alg, ops, qs
 
 
-def interleave(qs):
+def interleave(qs, facts=()):
+    """facts: the lines that re-read the input facts after `reset_new` (info <alg> … / envinfo)"""
     lines = []
     for q in qs:
         lines.append(q)
+        if q.startswith("reset_new"):
+            lines.extend(facts)
         lines.append("state")
         if not q.startswith(CONFIG_OPS):
             lines.append("fresh " + q)
     return lines
+
+
+def _facts(ops):
+    return [l for l in ops if l.startswith(("info", "envinfo"))]
 
 
 # ---------------------------------------------------------------------------------- comparison
@@ -207,7 +325,7 @@ def fresh_failures(lines, out, skip):
 
 def run_stream(ctx, corr, exe, drv, gens, stream, site):
     """gens: [(p, alg, ops, qs)]; returns number of compared lines"""
-    cases = [ops + interleave(qs) for (_, _, ops, qs) in gens]
+    cases = [ops + interleave(qs, _facts(ops)) for (_, _, ops, qs) in gens]
     impl, crashes = run_cases(exe, cases, timeout=1800)
     mcases = []
     for c, o in zip(cases, impl):
@@ -230,7 +348,12 @@ def run_stream(ctx, corr, exe, drv, gens, stream, site):
         if len(a) != len(lines) or len(b) != len(lines):
             corr.disagree(stream, c, a[:6] + ["…"] + a[-4:], b[:6] + ["…"] + b[-4:], f"output lengths {len(a)}/{len(b)} for {len(lines)} ops")
             continue
-        bad = next((k for k in range(len(lines)) if not line_ok(a[k], b[k], p["n"])), None)
+        curp, curs = p, []
+        for l in lines:                    # the problem the object holds when each line is executed
+            if l.startswith("reset_new"):
+                curp = p["_all"][int(l.split()[1]) - 1]
+            curs.append(curp)
+        bad = next((k for k in range(len(lines)) if not line_ok(a[k], b[k], curs[k]["n"], curs[k].get("kernel"))), None)
         compared += len(lines)
         corr.count(stream + "_numeric_skipped_not_modelled", sum(1 for x in b if x == "not-modelled"))
         corr.count(stream + "_state_lines", sum(1 for x in b if x.startswith(("st ", "adj "))))
@@ -257,7 +380,7 @@ def run_full_state(ctx, corr, n=None, maxlen=None):
     maxlen = maxlen or ctx.size(22, 90)
     gens = []
     for k in range(n):
-        gens.append(gen_full_history(ctx.rng, maxlen, want_singular=(k % 3 != 0)))
+        gens.append(gen_full_history(ctx.rng, maxlen, want_singular=(k % 3 != 0), multi=(k % 5 in (1, 3))))
     # a few histories with lists that cannot resolve the defect (outside the quantifier; throw + flags modelled)
     tgens = [gen_full_history(ctx.rng, maxlen, want_singular=True, throwing=True) for _ in range(max(10, n // 8))]
     for (p, alg, ops, qs) in gens:
@@ -269,6 +392,9 @@ def run_full_state(ctx, corr, n=None, maxlen=None):
         corr.count("full_singular" if sing else "full_regular")
         corr.count("full_ops", len(qs))
         corr.count("full_minx_changes", sum(1 for q in qs if q.startswith("min_x")))
+        rn = [int(q.split()[1]) - 1 for q in qs if q.startswith("reset_new")]
+        corr.count("full_reset_new", len(rn))
+        corr.count("full_reset_new_other_size", sum(1 for k in rn if (p["_all"][k]["m"], p["_all"][k]["n"]) != (p["m"], p["n"])))
         corr.count("full_repeats", sum(1 for a, b in zip(qs, qs[1:]) if a == b))
     c1 = run_stream(ctx, corr, exe, drv, gens, "fullstate", "AdjBaseFull")
     c2 = run_stream(ctx, corr, exe, drv, tgens, "fullstate-throw", "AdjBaseFull")
@@ -285,9 +411,13 @@ def run_adj_state(ctx, corr, n=None, maxlen=None):
     drv = ctx.driver("drv_fullstate")
     n = n or ctx.size(400, 9000)
     maxlen = maxlen or ctx.size(18, 70)
-    gens = [gen_adj_history(ctx.rng, maxlen) for _ in range(n)]
+    gens = [gen_adj_history(ctx.rng, maxlen, multi=(k % 2 == 1)) for k in range(n)]
     for (p, alg, ops, qs) in gens:
         sw = sum(1 for q in qs if q.startswith("set_alg"))
+        rn = [int(q.split()[1]) - 1 for q in qs if q.startswith("reset_new")]
+        corr.count("adj_set_other_data", len(rn))
+        corr.count("adj_set_other_data_same_shape", sum(1 for k in rn if (p["_all"][k]["m"], p["_all"][k]["n"]) == (p["m"], p["n"])))
+        corr.count("adj_problems_with_band", sum(1 for q_ in p["_all"] if any(b["width"] > 0 for b in q_["cov"])))
         corr.case(key=" ".join(ops + qs) if sw >= 1 else None,
                   sample={"alg": alg, "defect": p["defect"], "history": qs[:14]} if corr_first(corr, "adj_sample") else None)
         corr.count("adj_hist")
